@@ -27,13 +27,21 @@ func propC02(c *Ctx) {
 	}
 	rec(nil)
 	c.Notes = append(c.Notes, fmt.Sprintf("exhaustive: all sequences of length <= %d over 18 token classes (constant, identifier, ( ) [ ] , + - * ^ = AND NOT IS NULL IN LIKE); generated sentences (all operators, calls, indexes, 3 parenthesisation modes, random spacing/comments/keyword case) and their token-level mutants (insert, delete, replace, swap, duplicate); oracle = membership in the expression grammar decided by an independent CFG recogniser", maxL))
+	// quoted identifiers spelled like keywords, operators and punctuation, in every grammatical slot of short sentences
+	for _, q := range []string{"\"and\"", "\"AND\"", "\"or\"", "\"not\"", "\"is\"", "\"null\"", "\"in\"", "\"like\"", "\"true\"", "\"FALSE\"", "\"xor\"", "\"+\"", "\"-\"", "\"(\"", "\")\"", "\",\"", "\"<=\"", "\"[\""} {
+		for _, tpl := range []string{"%s", "%s + 1", "1 + %s", "1 %s 2", "a %s NULL", "a IS %s NULL", "f(1 %s 2)", "NOT %s", "%s[0]", "f(%s)", "a IS %s", "(%s)", "- %s"} {
+			runParseCase(c, fmt.Sprintf(tpl, q), "quoted-identifier-like-keyword")
+		}
+	}
 	// (2) generated sentences + (3) token-level mutants of any size
 	g := newExGen(c)
 	n := 1500
 	if c.Thorough {
 		n = 40000
 	}
-	vocab := []string{"1", "a", "(", ")", "[", "]", ",", "+", "-", "*", "/", "%", "^", "=", "<>", "!=", ">", "<", ">=", "<=", "<<", ">>", "AND", "OR", "XOR", "NOT", "IS", "IN", "NULL", "LIKE", "f", "'s'", "TRUE"}
+	vocab := []string{"1", "a", "(", ")", "[", "]", ",", "+", "-", "*", "/", "%", "^", "=", "<>", "!=", ">", "<", ">=", "<=", "<<", ">>", "AND", "OR", "XOR", "NOT", "IS", "IN", "NULL", "LIKE", "f", "'s'", "TRUE",
+		// quoted identifiers are variables whatever they spell; string constants likewise stay constants
+		"\"and\"", "\"null\"", "\"+\"", "\"true\"", "\"is\"", "\"not\"", "\",\"", "'and'", "'+'", "\"(\""}
 	for i := 0; i < n; i++ {
 		e := g.gen(1 + c.Rng.Intn(5))
 		mode := c.Rng.Intn(3)
